@@ -292,6 +292,19 @@ theorem act_lines (f : Facts) (hw : f.minTime ≤ f.maxTime) (hall : ∀ a ∈ f
   rw [h2]
   grind
 
+/-- … and every act line is **on** the axis: since the repair c9d1f38 `assemble` widens the time range by the act
+starts (an act without actions used to start beyond `MaxTime`), so `MinTime ≤ a.ts ≤ MaxTime` for every act start -/
+theorem act_lines_on_the_axis (f : Facts) (hw : f.minTime ≤ f.maxTime)
+    (hall : ∀ a ∈ f.acts, f.minTime ≤ a.ts ∧ a.ts ≤ f.maxTime) :
+    ∀ x ∈ (plotModel f).main.actLines, (plotModel f).main.xmin ≤ x ∧ x ≤ (plotModel f).main.xmax := by
+  intro x hx
+  rw [act_lines f hw (fun a ha => (hall a ha).1)] at hx
+  obtain ⟨a, ha, rfl⟩ := List.mem_map.mp hx
+  have h := hall a (List.mem_of_mem_drop ha)
+  obtain ⟨h1, h2⟩ := xrange_margin f
+  rw [h1, h2]
+  constructor <;> grind
+
 /-- the first act start is never a line, whatever its instant -/
 theorem first_act_no_line (f : Facts) (a : ActStart) (as : List ActStart) (h : f.acts = a :: as) :
     (plotModel f).main.actLines.length ≤ as.length := by
@@ -321,6 +334,24 @@ theorem zoom_same (f : Facts) (s : Rat) (h : f.repeatStart = some s) :
   refine ⟨subPlots f s f.maxTime, by simp [plotModel, h], ?_⟩
   simp only [subPlots_eq, plotModel]
   simp [specSub]
+
+/-- the axis of the zoomed copy is not reversed: the repeated section starts inside the time range (it starts at an act
+start, and act starts are in the range since c9d1f38; before, `set xrange [1.21:0.99]` was written for a repeated act
+without actions) -/
+theorem zoom_axis_ordered (f : Facts) (s : Rat) (h : f.repeatStart = some s) (hs : s ≤ f.maxTime) :
+    ∃ z, (plotModel f).zoom = some z ∧ z.xmin ≤ z.xmax := by
+  obtain ⟨z, hz, _, _, _, _, h1, h2, _⟩ := zoom_same f s h
+  refine ⟨z, hz, ?_⟩
+  rw [h1, h2]
+  grind
+
+/-- … and it was reversed whenever the section started beyond `MaxTime` (witness of the old behaviour) -/
+theorem zoom_axis_reversed_beyond_the_range (f : Facts) (s : Rat) (h : f.repeatStart = some s) (hs : f.maxTime < s) :
+    ∃ z, (plotModel f).zoom = some z ∧ z.xmax < z.xmin := by
+  obtain ⟨z, hz, _, _, _, _, h1, h2, _⟩ := zoom_same f s h
+  refine ⟨z, hz, ?_⟩
+  rw [h1, h2]
+  grind
 
 /-- **repeat_start**: where the zoom begins: with no repeated act there is no repeated section;
 otherwise it begins at the next-to-last start of the act named by `repeat from` (at its only
